@@ -178,6 +178,54 @@ def simdReduceAxis (N : Nat) (packOp : List α → List α → List α) (op : α
       else
         simdReduceVertical N packOp op a.data outShape a.shape axis out
 
+/-! ### keepdims: the shape of the view / output, and what `eval_reduction` hands to the enumerators -/
+
+/-- shape of a reduce view over one axis (= shape of the output buffer `eval_reduction` receives):
+    `keepdims` ? extent 1 at `axis` : `axis` removed -/
+def reduceOutShape (shape : List Nat) (axis : Nat) (keep : Bool) : List Nat :=
+  if keep then keepShape shape axis else shape.eraseIdx axis
+
+/-- `out_shape_` of `eval_reduction`: "normalize the out shape as if keepdims=True":
+    `keepdims ? out_shape : index::insert_index(out_shape, 1, reduction_axis)` -/
+def normOutShape (outShape : List Nat) (axis : Nat) (keep : Bool) : List Nat :=
+  if keep then outShape else outShape.insertIdx axis 1
+
+/-- reference with `keepdims` made explicit: NumPy `op.reduce(a, axis, keepdims)`, row-major buffer of the result of shape
+    `reduceOutShape`: cell `idx` is the left fold of `a[idx with k put at axis]`, `k < shape[axis]`
+    (`keepdims=true`: `idx[axis]` replaced; `keepdims=false`: `k` inserted) -/
+def scalarReduceAxisK (op : α → α → α) (a : NDA α) (axis : Nat) (keep : Bool) : Option (List α) :=
+  let os := reduceOutShape a.shape axis keep
+  allSome ((List.range (prod os)).map (fun o =>
+    let idx := ndindex os o
+    match allSome ((List.range (a.shape.getD axis 0)).map (fun k =>
+        a.get? (if keep then idx.set axis k else idx.insertIdx axis k))) with
+    | some (x :: xs) => some (xs.foldl op x)
+    | _ => none))
+
+/-- `operator()(output)` on a reduce view with an index axis and a `keepdims` flag: as `simdReduceAxis`, with the output
+    shape the view has (`reduceOutShape`) and the enumerators fed `normOutShape` of it.  Result: (shape, row-major buffer). -/
+def simdReduceAxisK (N : Nat) (packOp : List α → List α → List α) (op : α → α → α) (identity : Option α)
+    (a : NDA α) (axisI : Int) (keep : Bool) : Option (List Nat × List α) :=
+  let dim := a.shape.length
+  let axisN : Int := if axisI < 0 then axisI + (dim : Int) else axisI
+  if axisN < 0 ∨ axisN ≥ (dim : Int) then none else
+  let axis : Nat := axisN.toNat
+  let viewShape := reduceOutShape a.shape axis keep              -- shape(view) == shape(output)
+  if a.colMajor then (scalarReduceAxisK op a axis keep).map (fun b => (viewShape, b)) else
+  match identity with
+  | none => (scalarReduceAxisK op a axis keep).map (fun b => (viewShape, b))
+  | some e =>
+    let outSize := prod viewShape                                -- nmtools::size(output)
+    if outSize = 1 then
+      (simdReduceAll N packOp op e a).map (fun r => (viewShape, [r]))
+    else
+      let out := List.replicate outSize e
+      let outShape := normOutShape viewShape axis keep           -- insert_index(out_shape, 1, axis) unless keepdims
+      if axis = dim - 1 then
+        (simdReduceHorizontal N packOp op e a.data outShape a.shape axis out).map (fun b => (viewShape, b))
+      else
+        (simdReduceVertical N packOp op a.data outShape a.shape axis out).map (fun b => (viewShape, b))
+
 /-- … with `axis = None` (the output is one number): same dispatch, always the `out_size == 1` path -/
 def simdEvalReduceAll (N : Nat) (packOp : List α → List α → List α) (op : α → α → α) (identity : Option α)
     (a : NDA α) : Option α :=
